@@ -272,7 +272,11 @@ impl Transaction {
 		// See registration-race proof in the plan: visible_seq_num is
 		// strictly monotonic, so this load-then-register sequence cannot
 		// cause GC to advance past our start_seq.
+		#[cfg(surrealkv_verif)]
+		crate::verif::yield_point("begin:loaded");
 		let txn_guard = Some(core.active_txn_tracker.register(start_seq_num));
+		#[cfg(surrealkv_verif)]
+		crate::verif::yield_point("begin:tracked");
 
 		let mut snapshot = None;
 		if !mode.is_write_only() {
